@@ -49,20 +49,21 @@ Definition outcome_eqb (a b : outcome) : bool :=
   | ORaised q1 a1 t1, ORaised q2 a2 t2 => text_eqb q1 q2 && xval_eqb (XList a1) (XList a2) && attrs_eqb t1 t2
   | OFallback c1 o1 b1, OFallback c2 o2 b2 => text_eqb c1 c2 && text_eqb o1 o2 && Bool.eqb b1 b2
   | OSerErr c1, OSerErr c2 | OClientErr c1, OClientErr c2 | OLocalErr c1, OLocalErr c2 => text_eqb c1 c2
-  | OConnLost, OConnLost | OTimeout, OTimeout | OReturned, OReturned => true
+  | OConnLost, OConnLost | OHang, OHang | OReturned, OReturned => true
   | _, _ => false
   end.
 
-(* the traceback text varies with paths and line numbers: both sides use this marker *)
-Definition tb_marker : xval := XStr [84%N; 66%N].
+(* the traceback text varies with paths and line numbers: both sides reduce it to a token naming the entry
+   point (function) of the call that failed; the model is given the token of the CURRENT call [cs_tb],
+   whatever traceback a previous call left on the server's exception object (in e_attrs) *)
 
 Record case := {
-  cs_quirks : quirks; cs_ser : ser; cs_kind : kind; cs_exc : exc;
+  cs_quirks : quirks; cs_ser : ser; cs_kind : kind; cs_exc : exc; cs_tb : xval;
   (* observed *)
   cs_before : nat; cs_out : outcome; cs_server_open : bool; cs_client_conn : bool; cs_next_ok : bool }.
 
 Definition model_run (c : case) : result :=
-  run (cs_quirks c) gen_tables gen_facts std_codec (std_serr gen_tables) std_ctor (cs_ser c) (cs_kind c) (cs_exc c) tb_marker.
+  run (cs_quirks c) gen_tables gen_facts std_codec (std_serr gen_tables) std_ctor (cs_ser c) (cs_kind c) (cs_exc c) (cs_tb c).
 
 (* a class the harness says is whitelisted must carry the MRO the generated table has *)
 Definition class_consistent (ci : cinfo) : bool :=
